@@ -101,6 +101,10 @@ pub fn decode(t: &mut Tape) -> NetCase {
     let mut reqs = vec![];
     for _ in 0..(1 + t.pick(5)) {
         let mut u = format!("{}://{}{}", t.choose(&["https", "http", "https", "wss"]), t.choose(&hosts), t.choose(&["/p", "/", "", "/a/b.html", "/p;x"]));
+        if t.chance(1, 8) {
+            // spellings that URL normalisation would change: the rewrite must keep them as given
+            u = format!("{}://{}{}", t.choose(&["HTTPS", "Http", "https"]), t.choose(&["X.com", "bücher.example", "shop.X.COM", "y.org:443", "user@y.org", "x.com."]), t.choose(&["/p", "/", "/A/B.html", "/p%7Ex", "/ü"]));
+        }
         if t.chance(4, 5) {
             u.push('?');
             u.push_str(&qs(t));
@@ -115,7 +119,7 @@ pub fn decode(t: &mut Tape) -> NetCase {
 }
 
 pub fn check(ctx: &mut Ctx) {
-    ctx.rule = "1-5 removeparam rules (8 parameter names incl. case variants, 8 patterns, extra options such as types/domain/party/important) + blocking/important/exception companions and malformed removeparam spellings; 1-5 raw URLs whose query mixes empty keys/values, bare keys, '=' inside values, '&&', leading/trailing '&', percent escapes, non-ASCII, 1 in 20 with one opaque value of 0.7-5 KiB, and whose fragment may contain '?', '#' and parameters. Oracle: query surgery on the raw input string (query = first '?' before the first '#'; remove pairs k=v with non-empty v and k equal to a matching rule's name; '?' dropped only when nothing remains; None when nothing removed or an important rule blocks); which rules match comes from NetworkFilter::matches. Non-trivial = rewrite that keeps some parameters, or matching rule that must not rewrite (near-miss key / empty value).".into();
+    ctx.rule = "1-5 removeparam rules (8 parameter names incl. case variants, 8 patterns, extra options such as types/domain/party/important) + blocking/important/exception companions and malformed removeparam spellings; 1-5 raw URLs (1 in 8 spelled in a way URL normalisation would change: upper-case scheme or host, IDN host, default port, userinfo, trailing dot, percent escapes) whose query mixes empty keys/values, bare keys, '=' inside values, '&&', leading/trailing '&', percent escapes, non-ASCII, 1 in 20 with one opaque value of 0.7-5 KiB, and whose fragment may contain '?', '#' and parameters. Oracle: query surgery on the raw input string (query = first '?' before the first '#'; remove pairs k=v with non-empty v and k equal to a matching rule's name; '?' dropped only when nothing remains; None when nothing removed or an important rule blocks); which rules match comes from NetworkFilter::matches. Non-trivial = rewrite that keeps some parameters, or matching rule that must not rewrite (near-miss key / empty value).".into();
     ctx.assumptions = vec!["the rewritten URL is compared byte for byte with the model's".into()];
     let n = ctx.tier.pick(1_500_000, 10_000_000);
     drive(ctx, "removeparam", n, 300, &decode, &check_case);
